@@ -27,10 +27,10 @@ CHECKS = {
    text='MC_Reorder3: TLC explores swap, reorder-to-every-permutation and sifting with EVERY visiting order over 3 variables on the transcribed swap/_shift/_reorder_var/_sort_to_order (SwapC, ReorderToC, SiftC, HeldSame, Canonical, RefExact); its state graph, managers holding all 256 functions of 3 variables or 40 functions of 4-5 variables, and seeded reorder-heavy histories (0-5 variables; swap by name/level, reorder, reorder_to_pairs, sift, repetitions) run on the real code with every step judged by TLC: same number, same denotation by name, same external count, requested order/adjacency, sifting never grows.',
    note=TRUST + 'External counts are the harness ledger. Real sifting visits variables in the set order of the run\'s PYTHONHASHSEED; the model covers all visiting orders.', design='7 (C07)'),
  'C11': dict(technique='explicit TLA+ contract (TraceXfer.tla over BDDState/BoolFun) checked by TLC on recorded two-manager executions',
-   text='For all 36 pairs of source/target orders of 3 variables all 256 functions (and sampled functions over sampled pairs of the 576 order pairs of 4 variables) are copied by six routes (BDD.copy, dd.bdd.copy_bdd, dd.autoref.copy_bdd, dd.autoref.BDD.copy, dd._copy.copy_bdd, copy_bdds_from with a shared memo) into a target with an extra variable and pre-existing referenced nodes; copy_vars into empty/identical/conflicting managers. TLC checks, from the four recorded manager states of each transfer: same denotation by name, source tables identical, target canonical with exact counts, target held references unchanged. The in-manager copy recursion (_copy_bdd as rename) is model-checked in MC_Let2.',
-   note=TRUST + 'No state-machine exploration of two managers: the contract is checked on recorded transfers only (the recursion itself is the one model-checked as CopyRename).', design='7 (C11)'),
- 'C12': dict(category='exploration', technique='explicit TLA+ contract (TraceXfer.tla) checked by TLC on recorded dump+load transfers',
-   text='Seeded dump/load cases (1-4 roots, list/dict, random signs, constants included; pickle with levels True/False, JSON with load_order True/False; into a fresh manager, the same manager, same order, different order, extra variable + pre-existing nodes; dump without roots; whole-manager pickle) are recorded with the states of source and receiver before/after; TLC checks roots denote the dumped functions by name under the same keys/positions, receiver canonical with exact counts (the JSON loader\'s temporary references gone), held references unchanged, and that loads inside the documented domain do not raise.',
+   text='For all 36 pairs of source/target orders of 3 variables all 256 functions (and sampled functions over sampled pairs of the 576 order pairs of 4 variables) are copied by six routes (BDD.copy, dd.bdd.copy_bdd, dd.autoref.copy_bdd, dd.autoref.BDD.copy, dd._copy.copy_bdd, copy_bdds_from with a shared memo) into a target with an extra variable and pre-existing referenced nodes; copy_vars into empty/identical/conflicting managers. TLC checks, from the four recorded manager states of each transfer: same denotation by name, source tables identical, target canonical with exact counts, target held references unchanged. The copy recursion is model-checked within one manager (MC_Let2, rename) and between two managers with every receiver order (MC_CopyLoad).',
+   note=TRUST + 'MC_CopyLoad model-checks the transcribed inter-manager copy for every receiver order of 3 names.', design='7 (C11)'),
+ 'C12': dict(technique='explicit TLA+ specification of two managers and an abstract file (CopyLoad.tla: transcribed pickle and JSON loaders) model-checked with TLC; TLC validation of recorded dump+load transfers against the same contract (TraceXfer.tla)',
+   text='MC_CopyLoad: TLC explores source/receiver managers over 3 names (every receiver order), building functions, pre-existing receiver nodes, drops, collections and the transfers copy / pickle load (levels TRUE and FALSE) / JSON load with its temporary per-node references, checking that the returned root denotes the source function by name, the source is untouched and the receiver stays canonical with exact counts (a negative configuration that keeps the temporaries is refuted). Seeded dump/load cases (1-4 roots, list/dict, random signs, constants included; pickle with levels True/False, JSON with load_order True/False; into a fresh manager, the same manager, same order, different order, extra variable + pre-existing nodes; dump without roots; whole-manager pickle) are recorded with the states of source and receiver before/after; TLC checks roots denote the dumped functions by name under the same keys/positions, receiver canonical with exact counts (the JSON loader\'s temporary references gone), held references unchanged, and that loads inside the documented domain do not raise.',
    note=TRUST + 'Byte formats are not modelled: dump followed by load is one abstract transfer. Unreachable Function objects are finalised (gc.collect) before each snapshot.', design='7 (C12)'),
  'C13': dict(technique='explicit TLA+ specification: BoolFun!PreimageF/ImageF, the transcribed _image recursion model-checked by TLC against them (MC_Rel), and TLC judging exhaustive/sampled sweeps of the real image/preimage',
    text='For one primed/unprimed pair EVERY relation x operand x quantified subset x quantifier x order, and for two pairs sampled relations/operands over every order of 4 variables, dd.bdd.image/preimage (names and levels) and dd.autoref.image/preimage are run on a manager holding all functions; TLC re-evaluates the documented preconditions and checks each result against the relational-product definition (rename, conjoin, quantify). MC_Rel model-checks the transcribed _image recursion (simultaneous descent with the level shift of the renamed operand) against the same contracts for one pair plus a free variable.',
